@@ -316,6 +316,13 @@ pub fn extract_byte_ranges_read_seek<T: Read + Seek>(
     byte_ranges: &[ByteRange],
 ) -> std::io::Result<Vec<Vec<u8>>> {
     let len: u64 = bytes.seek(SeekFrom::End(0))?;
+    // Reject byte ranges beyond the end of the bytes before seeking or allocating
+    if let Some(byte_range) = byte_ranges.iter().find(|r| !r.is_valid(len)) {
+        return Err(std::io::Error::new(
+            std::io::ErrorKind::InvalidInput,
+            InvalidByteRangeError::new(*byte_range, len).to_string(),
+        ));
+    }
     let mut out = Vec::with_capacity(byte_ranges.len());
     for byte_range in byte_ranges {
         let data: Vec<u8> = match byte_range {
